@@ -101,6 +101,7 @@ UNIT_DRIVERS = {
     "table_add": ["sstable::table::roundtrip_enum_quick", "sstable::table::min_vlog_file_id_enum"],
     "table_meta": ["sstable::table::roundtrip_enum_quick"],
     "recovery_flush": ["wal::crash_enum_quick"],
+    "scan_filter_back": ["transaction::cursor_enum_quick"],
     "lock_order": ["transaction::cursor_enum_quick"],
 }
 
